@@ -87,7 +87,16 @@ def steady_state_transport_solver(
 
     # Check cache for footprint mode
     if cache is not None and footprint:
-        cached = cache.get(z, profiles, domain, modes, meas_pt, halo, precision)
+        # inputs besides the Green's function parameters that shape the result
+        cache_extra = (
+            np.shape(q0),
+            np.asarray(levels).tolist(),
+            float(srf_bg_conc),
+            bool(analytic),
+        )
+        cached = cache.get(
+            z, profiles, domain, modes, meas_pt, halo, precision, extra=cache_extra
+        )
         if cached is not None:
             return cached
 
@@ -318,7 +327,17 @@ def steady_state_transport_solver(
 
     # Store to cache for footprint mode
     if cache is not None and footprint:
-        cache.put(z, profiles, domain, modes, meas_pt, halo, precision, *result)
+        cache.put(
+            z,
+            profiles,
+            domain,
+            modes,
+            meas_pt,
+            halo,
+            precision,
+            *result,
+            extra=cache_extra,
+        )
 
     return result
 
